@@ -119,9 +119,9 @@ PROPS = {
     "C13": {"oracle": "C13", "view": ["outcome", "pkts", "common"], "families": fam_c13,
             "rule": "V5/V7 packets and V9/IPFIX streams whose templates are built from the projected fields (any subset/order, IPv4/IPv6), several records and sets; flat helper on a twin parser"},
     "C15": {"oracle": "C15", "view": ["outcome", "pkts"], "want_override": ["alloc"],
-            "families": lambda rng, tier: with_want(gen.fam_extremal(rng, tier) + fam_general(rng, tier) + gen.fam_redefine(rng, n(tier, 40, 300)), ["alloc"]),
+            "families": lambda rng, tier: with_want(gen.fam_extremal(rng, tier) + fam_general(rng, tier) + gen.fam_redefine(rng, n(tier, 40, 300)), ["alloc"]) + gen.fam_scaling(rng, tier),
             "mutate_per": {"quick": 1, "thorough": 3},
-            "rule": "heap bytes requested from a counting global allocator during parse_bytes (measured in the harness) against A*|buf| + B*size(result) + C with A=64, B=16, C=128 KiB, and size(result) against D*(|buf| + wire size of cached templates) + E with D=256, E=1 KiB (sizes defined in lean/NetflowModel/Cost.lean); extremal families: headers announcing 65535 records/fields over short bodies, buffers packed with minimal packets, maximal record counts, templates with many (zero-length) fields"},
+            "rule": "heap bytes requested from a counting global allocator during parse_bytes (measured in the harness) against A*|buf| + B*size(result) + C with A=64, B=16, C=128 KiB, and size(result) against D*(|buf| + wire size of cached templates) + E with D=256, E=1 KiB (sizes defined in lean/NetflowModel/Cost.lean); growth oracle (assert_scale): the same input shape at size n and 4n on twin parsers, allocation and result size may grow at most 6x (+64 KiB) — templates per flowset, template sets, redefinitions, records, data sets, fields per template, V5/V7 records — and the same small message against caches of size n and 8n must cost the same; extremal families: headers announcing 65535 records/fields over short bodies, buffers packed with minimal packets, maximal record counts, templates with many (zero-length) fields"},
     "C16": {"oracle": "C16", "view": ["outcome", "pkts"],
             "families": lambda rng, tier: gen.fam_json(rng, n(tier, 200, 2000)) + gen.fam_garbage(rng, n(tier, 60, 400)) + gen.fam_fixed(rng, n(tier, 30, 200)),
             "mutate_per": {"quick": 1, "thorough": 2},
